@@ -12,3 +12,25 @@ func (s *Server) VerifRoutes() gin.RoutesInfo {
 }
 
 func (s *Server) VerifManager() Manager { return s.upstreams }
+
+// VerifSetRebalance replaces the rebalance configuration (read on every
+// Rebalance call).
+func (s *Server) VerifSetRebalance(threshold, shedRate float64, minConns uint) {
+	s.config.Rebalance.Threshold = threshold
+	s.config.Rebalance.ShedRate = shedRate
+	s.config.Rebalance.MinConns = minConns
+}
+
+// VerifSessionCounts returns the number of registered sessions and how many
+// of those are already closed (shed but not yet deregistered).
+func (s *Server) VerifSessionCounts() (registered, closed int) {
+	s.sessionsMu.Lock()
+	defer s.sessionsMu.Unlock()
+	for sess := range s.sessions {
+		registered++
+		if sess.IsClosed() {
+			closed++
+		}
+	}
+	return
+}
